@@ -838,7 +838,8 @@ class Exec:
             out = []
             x = args[0]
             tys = c.full
-            if 'Option<' in tys.split(' as ')[0]:
+            # the *outermost* type constructor of Self decides (Result<Option<T>, E> is a Result)
+            if tys.split(' as ')[0].lstrip('<').split('<')[0].endswith('Option'):
                 for (s2, kn, pl) in self.split_result(st, x, ('None', 'Some')):
                     if kn == 'Some':
                         out.append((s2, ('adt', 'core::ops::ControlFlow', 0, 'Continue', (pl,)), None))
